@@ -9,7 +9,7 @@ Tie: a real ControllerPid on a real Store is driven through the same history (st
 Oracle (independent of the model): limits checked on the shares after every action; error checked against the wrapped
      difference with fractions.Fraction; integrator reset checked metamorphically on a twin controller whose errorSum is
      perturbed just before a set-point jump."""
-import math, itertools
+import math, itertools, zlib
 from fractions import Fraction as F
 import core
 
@@ -40,8 +40,10 @@ def q(x):
     """canonical exact text of a float for comparison / the driver"""
     if x is None:
         return "none"
-    if isinstance(x, bool) or not isinstance(x, (int, float)):
+    if not isinstance(x, (int, float, F)):          # bool is an int (True == 1); values are compared as exact rationals
         return "BAD:" + type(x).__name__
+    if isinstance(x, F) or (isinstance(x, int) and not isinstance(x, bool) and abs(x) >= 2 ** 53):
+        return "%d/%d" % (F(x).numerator, F(x).denominator)
     x = float(x)
     if math.isnan(x):
         return "nan"
@@ -58,10 +60,26 @@ def unq(s):
     return F(int(p), int(d))
 
 
+def tv(v, salt):
+    """numeric type of a value in a 'mixed' case: integral values below 2**20 are handed to the controller as int or
+    bool instead of float (chosen by a hash of salt and value, so every run of the case makes the same choice).
+    For such values int arithmetic and binary64 arithmetic give equal numbers, so the model is unchanged and the
+    comparison (exact rationals) checks that nothing depends on the argument being a float."""
+    if salt is None or v is None or isinstance(v, bool) or not math.isfinite(v) or v != int(v) or abs(v) >= 2 ** 20:
+        return v
+    h = zlib.crc32(("%s:%r" % (salt, float(v))).encode())
+    if h % 3 == 0:
+        return v
+    if v in (0, 1) and h % 3 == 1:
+        return bool(v)
+    return int(v)
+
+
 class Rig:
     """a real ControllerPid on a real Store"""
 
-    def __init__(self, parm):
+    def __init__(self, parm, salt=None):
+        self.salt = salt
         from ioflo.base import storing
         from ioflo.trim.interior.plain import controlling
         n = next(_ctr)
@@ -70,20 +88,23 @@ class Rig:
         self.store = storing.Store(name="c46s%d" % n)
         self.c = controlling.ControllerPid(name="c46pid", store=self.store)
         self.c._prepio(group="ctl.pid", output="goal.out", input="state.in", rate="state.rate", rsp="goal.sp",
-                       parms=self._parms(parm))
+                       parms=self._tparms(parm))
 
     @staticmethod
     def _parms(parm):
         return {k: (bool(parm[k]) if k == "calcRate" else dec(parm[k])) for k in PKEYS}
 
+    def _tparms(self, parm):
+        return {k: (v if k == "calcRate" else tv(v, self.salt)) for k, v in self._parms(parm).items()}
+
     def setparm(self, parm):
-        self.c.parm.update(**self._parms(parm))
+        self.c.parm.update(**self._tparms(parm))
 
     def update(self, stamp, i, r, sp):
-        self.store.stamp = stamp            # what changeStamp() does to the attribute the doer reads (None allowed)
-        self.c.input.value = i
-        self.c.rate.value = r
-        self.c.rsp.value = sp
+        self.store.stamp = tv(stamp, self.salt)   # what changeStamp() does to the attribute the doer reads (None allowed)
+        self.c.input.value = tv(i, self.salt)
+        self.c.rate.value = tv(r, self.salt)
+        self.c.rsp.value = tv(sp, self.salt)
         self.c.action()
 
     def state(self):
@@ -91,7 +112,7 @@ class Rig:
         return [c.lapse, c.elapsed.value, c.prsp.value, c.e.value, c.er.value, c.es.value, c.output.value]
 
     def clone(self, parm):
-        o = Rig(parm)
+        o = Rig(parm, self.salt)
         o.c.stamp, o.c.lapse = self.c.stamp, self.c.lapse
         o.store.stamp = self.store.stamp
         for name in ("elapsed", "prsp", "e", "er", "es", "output", "input", "rate", "rsp"):
@@ -136,7 +157,9 @@ class CHECK(core.Check):
     N_SEARCH = 1500
     RULE = ("a case = one parm set (gains, wrap, drsp, calcRate, ordered limits; finite, +-inf, occasionally nan gains) and "
             "a history of 1..30 operations: action() at a given store stamp (increasing by dyadic or decimal steps, "
-            "sometimes repeated/backwards/None) with input / rate / set-point values (random walks, jumps, jitter below "
+            "sometimes repeated/backwards/None) with input / rate / set-point values (about a third of the cases 'mixed': "
+            "integral stamps, signals, gains and limits below 2**20 are handed over as int or bool instead of float; "
+            "results compared as exact rationals) (random walks, jumps, jitter below "
             "drsp, occasionally nan / +-inf), restart(), and changes of the gains. Small exhaustive block: all "
             "histories of length 2 (quick) / 3 (thorough) over a 3-value input/set-point alphabet for 4 parm sets. non-trivial = at least one "
             "action() with positive lapse was evaluated; distinct by full case content")
@@ -259,7 +282,32 @@ class CHECK(core.Check):
         for _ in range(n):
             sp = 0.05 if rng.random() < 0.35 else 0.0          # non-finite values only in about a third of the cases
             parm = self._parm(rng, sp)
-            yield {"parm": parm, "ops": self._history(rng, parm, rng.choice([1, 2, 3, 5, 8, 12, 20, 30]), sp)}
+            c = {"parm": parm, "ops": self._history(rng, parm, rng.choice([1, 2, 3, 5, 8, 12, 20, 30]), sp)}
+            if rng.random() < 0.35:
+                # other numeric types: integral values reach the controller as int / bool (see tv); half of these
+                # cases are rounded to integers throughout so that most values are affected
+                c["num"] = rng.randrange(1 << 16)
+                if rng.random() < 0.5:
+                    c = self._integral(c)
+            yield c
+
+    @staticmethod
+    def _integral(c):
+        def rnd(s):
+            v = dec(s)
+            return s if (v is None or not math.isfinite(v)) else enc(float(round(v)))
+
+        def rp(p):
+            return {k: (v if k == "calcRate" else rnd(v)) for k, v in p.items()}
+        ops = []
+        for op in c["ops"]:
+            if op[0] == "upd":
+                ops.append(["upd"] + [rnd(x) for x in op[1:5]])
+            elif op[0] == "parm":
+                ops.append(["parm", rp(op[1])])
+            else:
+                ops.append(op)
+        return dict(c, parm=rp(c["parm"]), ops=ops)
 
     def exhaustive(self, tier):
         base = dict(wrap=enc(180.0), drsp=enc(0.01), calcRate=True, ger=enc(1.0), gff=enc(0.0), gpe=enc(3.0),
@@ -276,10 +324,20 @@ class CHECK(core.Check):
                 for ss in itertools.product(sps, repeat=L):
                     ops = [["upd", enc(0.5 * k), xs[k], enc(0.25), ss[k]] for k in range(L)]
                     yield {"parm": p, "ops": [["upd", enc(-0.5), enc(10.0), enc(0.0), enc(20.0)]] + ops}
+        # the same family with integral stamps and values handed over as int / bool (two hash salts)
+        ivals = [enc(10.0), enc(350.0), enc(1.0)]
+        isps = [enc(20.0), enc(0.0), enc(-170.0)]
+        for salt in (1, 2):
+            for p in parms[:3]:
+                p = self._integral({"parm": p, "ops": []})["parm"]
+                for xs in itertools.product(ivals, repeat=2):
+                    for ss in itertools.product(isps, repeat=2):
+                        ops = [["upd", enc(float(k + 1)), xs[k], enc(1.0), ss[k]] for k in range(2)]
+                        yield {"parm": p, "num": salt, "ops": [["upd", enc(0.0), enc(10.0), enc(0.0), enc(20.0)]] + ops}
 
     # ------------------------------------------------------------------ implementation / model
     def impl(self, c):
-        return run_ops(Rig(c["parm"]), c["parm"], c["ops"])
+        return run_ops(Rig(c["parm"], c.get("num")), c["parm"], c["ops"])
 
     @staticmethod
     def _parmline(p):
@@ -375,7 +433,7 @@ class CHECK(core.Check):
         """a set point change larger than drsp resets the integrator: the outcome of that action() must not depend on
         the errorSum accumulated before it.  Checked on the real code: two clones of the controller, one with a
         perturbed errorSum, run the same action()."""
-        rig = Rig(c["parm"])
+        rig = Rig(c["parm"], c.get("num"))
         parm = c["parm"]
         for k, op in enumerate(c["ops"]):
             if op[0] == "parm":
